@@ -71,9 +71,9 @@ class SubLV:
                 eng.oblige("type.dict-value", "type", st, c)
                 st.assume(c)
             keys, vals = eng.map_keys(base), eng.map_vals(base)
-            has = z3.Contains(keys, z3.Unit(k.t))
-            nk = z3.If(has, keys, z3.Concat(keys, z3.Unit(k.t)))
-            self.parent.set(eng, st, eng.map_mk(base.ty, nk, z3.Store(vals, k.t, v.t)))
+            has = z3.Contains(keys, z3.Unit(S.enc(k)))
+            nk = z3.If(has, keys, z3.Concat(keys, z3.Unit(S.enc(k))))
+            self.parent.set(eng, st, eng.map_mk(base.ty, nk, z3.Store(vals, S.enc(k), v.t)))
             return
         raise Unsupported("sub-lvalue set on %r" % (base.ty,))
 
@@ -443,10 +443,12 @@ def _sb_has(eng, st, m, k):
 
 def _sb_get(eng, st, m, k):
     kk = eng.coerce(k, m.ty.key)[0]
-    return SV(m.ty.elem, z3.Select(eng.map_vals(m), kk.t))
+    return SV(m.ty.elem, z3.Select(eng.map_vals(m), S.enc(kk)))
 
 
 def _sb_contains(eng, st, sq, x):
+    if sq.ty.kind == "str":
+        return mk_bool(z3.Contains(sq.t, eng.coerce(x, STR)[0].t))
     xx = eng.pack(eng.coerce(x, sq.ty.elem)[0])
     return mk_bool(seq_member(eng, sq, xx))
 
@@ -465,8 +467,8 @@ def _sb_map_put(eng, st, m, k, v):
     kk = eng.coerce(k, m.ty.key)[0]
     vv = eng.coerce(v, m.ty.elem)[0]
     keys, vals = eng.map_keys(m), eng.map_vals(m)
-    has = z3.Contains(keys, z3.Unit(kk.t))
-    return eng.map_mk(m.ty, z3.If(has, keys, z3.Concat(keys, z3.Unit(kk.t))), z3.Store(vals, kk.t, vv.t))
+    has = z3.Contains(keys, z3.Unit(S.enc(kk)))
+    return eng.map_mk(m.ty, z3.If(has, keys, z3.Concat(keys, z3.Unit(S.enc(kk)))), z3.Store(vals, S.enc(kk), vv.t))
 
 
 def _sb_map_del(eng, st, m, k):
@@ -477,7 +479,7 @@ def _sb_map_del(eng, st, m, k):
 def _sb_mapeq(eng, st, a, b):
     """Extensional equality of two ordered maps: same key order, same value on every key
     (values stored for absent keys are junk and do not count)."""
-    k = z3.Const("q_mk_%d" % S._fresh[0], S.sort_of(a.ty.key))
+    k = z3.Const("q_mk_%d" % S._fresh[0], S.elem_sort(a.ty.key))
     S._fresh[0] += 1
     ka, kb = eng.map_keys(a), eng.map_keys(b)
     return mk_bool(z3.And(ka == kb, z3.ForAll([k], z3.Implies(z3.Contains(ka, z3.Unit(k)),
@@ -486,7 +488,7 @@ def _sb_mapeq(eng, st, a, b):
 
 def _sb_indexof(eng, st, sq, x):
     xx = eng.coerce(x, sq.ty.elem)[0]
-    return SV(INT, z3.IndexOf(sq.t, z3.Unit(xx.t), 0))
+    return SV(INT, z3.IndexOf(sq.t, z3.Unit(S.enc(xx)), 0))
 
 
 # ---- dynamic dict values (PyObj.O_other with kind 1): contents through uninterpreted functions
@@ -540,7 +542,7 @@ def _sb_isinst(eng, st, x, t):
 
 
 def _sb_seq1(eng, st, x, like=None):
-    return SV(SEQ(x.ty), z3.Unit(x.t))
+    return SV(SEQ(x.ty), z3.Unit(S.enc(x)))
 
 
 def _sb_asref(eng, st, x, c):
@@ -560,7 +562,11 @@ def _sb_map_empty(eng, st, m):
     return mk_bool(z3.Length(eng.map_keys(m)) == 0)
 
 
-SPEC_BUILTINS = {"isdict": _sb_isdict, "dlen": _sb_dlen, "dkeys": _sb_dkeys, "dhas": _sb_dhas, "dget": _sb_dget,
+def _sb_bval(eng, st, x):
+    return eng.coerce(x, BOOL)[0]
+
+
+SPEC_BUILTINS = {"bval": _sb_bval, "isdict": _sb_isdict, "dlen": _sb_dlen, "dkeys": _sb_dkeys, "dhas": _sb_dhas, "dget": _sb_dget,
                  "isinst": _sb_isinst, "indexof": _sb_indexof, "mapeq": _sb_mapeq, "has": _sb_has, "get": _sb_get, "contains": _sb_contains, "nodup": _sb_nodup, "rm": _sb_rm,
                  "map_put": _sb_map_put, "map_del": _sb_map_del, "seq1": _sb_seq1, "asref": _sb_asref,
                  "subseq": _sb_subseq, "empty_like": _sb_empty_like, "map_empty": _sb_map_empty,
@@ -1020,8 +1026,21 @@ def method_call2(eng, lv, recv, name, args, kwargs, s, node):
             f = eng.table.resolve(eng.self_class, name)
         else:
             f = eng.table.resolve(static, name)
+        if f is None and not eng.spec and static in eng.table.classes:
+            # the method exists only in a subclass: usable when the path condition proves the
+            # receiver to be an instance of it (e.g. after an isinstance test)
+            subs = [c for c in eng.table.subclasses(static) if eng.table.resolve(c, name) is not None]
+            subs.sort(key=lambda c: len(eng.table.mro(c)))
+            for c in subs:
+                stt, _, _, _, _ = eng.prover.check(s.pc, eng.isinstance_ref(recv.t, c), want_model=False, timeout_ms=1500)
+                if stt == "proved":
+                    return method_call2(eng, lv, SV(REF(c), recv.t), name, args, kwargs, s, node)
         if f is None:
             raise Unsupported("method %s.%s not found" % (static, name))
+        is_self = "self" in s.env and recv.t.eq(s.env["self"].t) and eng.self_class
+        if not is_self:
+            return dispatch(eng, static, name, recv, s,
+                            lambda fn, rv, s2: call_function(eng, fn, rv, args, kwargs, s2, rv.ty.cls, False))
         return call_function(eng, f, recv, args, kwargs, s, static, False)
     if k == "optseq":
         # Optional[list] (result of dict.get): a method call on None raises AttributeError
@@ -1059,6 +1078,50 @@ def method_call2(eng, lv, recv, name, args, kwargs, s, node):
     raise Unsupported("method %s on %r" % (name, recv.ty))
 
 
+def dispatch(eng, static, name, recv, s, cont):
+    """Closed-world dynamic dispatch on a receiver other than self: the concrete subclasses of
+    the static class are grouped by the function ``name`` resolves to; one path per group, with
+    the receiver's dynamic class constrained to the group and the receiver retyped."""
+    f0 = eng.table.resolve(static, name)
+    if static not in eng.table.classes:
+        return cont(f0, recv, s)
+    c0 = eng.reg.contracts.get(f0.qual) if f0 is not None else None
+    if c0 is not None and c0.abstract:
+        # an interface contract (open world: user classes may implement it): no case split
+        return cont(f0, recv, s)
+    groups = {}
+    for c in eng.table.subclasses(static):
+        if eng.is_abstract(c) and any(not eng.is_abstract(x) for x in eng.table.subclasses(static)):
+            continue
+        f = eng.table.resolve(c, name)
+        if f is None:
+            continue
+        # trivial getters with the same text reading the same declared field are one group
+        key = f.qual
+        if is_trivial(f):
+            fld = None
+            b = f.body[0]
+            if isinstance(b, ast.Return) and isinstance(b.value, ast.Attribute):
+                fld = eng.field_key(c, b.value.attr)
+            key = ("trivial", ast.dump(b), fld)
+        groups.setdefault(key, []).append((c, f))
+    if len(groups) <= 1:
+        f = eng.table.resolve(static, name)
+        return cont(f, recv, s)
+    outs = []
+    for key, members in groups.items():
+        classes = [c for c, _ in members]
+        cond = z3.Or(*[S.typeof(recv.t) == eng.class_id(c) for c in classes])
+        s2 = s.fork().assume(cond)
+        if not eng.feasible(s2):
+            continue
+        # retype the receiver to the most general class of the group
+        classes.sort(key=lambda c: len(eng.table.mro(c)))
+        rv = SV(REF(classes[0]), recv.t)
+        outs += cont(members[0][1] if len({f.qual for _, f in members}) == 1 else eng.table.resolve(classes[0], name), rv, s2)
+    return outs
+
+
 def need_owned(eng, lv, s, what):
     if not lv.owned(eng, s):
         raise Unsupported("%s through a non-owned alias" % what)
@@ -1068,7 +1131,7 @@ def seq_method(eng, lv, recv, name, args, s):
     if recv.ty.kind == "emptylist":
         if name == "append":
             v = eng.pack(args[0])
-            lv.set(eng, s, SV(SEQ(v.ty), z3.Unit(v.t), const="fresh"))
+            lv.set(eng, s, SV(SEQ(v.ty), z3.Unit(S.enc(v)), const="fresh"))
             return [(s, mk_none())]
         raise Unsupported("method %s on empty list literal" % name)
     et = recv.ty.elem
@@ -1078,7 +1141,7 @@ def seq_method(eng, lv, recv, name, args, s):
         eng.pack(v)
         if c is not None:
             eng.oblige("type.elem", "type", s, c)
-        lv.set(eng, s, SV(recv.ty, z3.Concat(recv.t, z3.Unit(v.t)), const=recv.const))
+        lv.set(eng, s, SV(recv.ty, z3.Concat(recv.t, z3.Unit(S.enc(v))), const=recv.const))
         return [(s, mk_none())]
     if name == "insert":
         need_owned(eng, lv, s, "insert")
@@ -1087,7 +1150,7 @@ def seq_method(eng, lv, recv, name, args, s):
         eng.pack(v)
         n = z3.Length(recv.t)
         j = z3.If(i < 0, z3.If(i + n < 0, 0, i + n), z3.If(i > n, n, i))
-        new = z3.Concat(z3.SubSeq(recv.t, 0, j), z3.Unit(v.t), z3.SubSeq(recv.t, j, n - j))
+        new = z3.Concat(z3.SubSeq(recv.t, 0, j), z3.Unit(S.enc(v)), z3.SubSeq(recv.t, j, n - j))
         lv.set(eng, s, SV(recv.ty, new, const=recv.const))
         return [(s, mk_none())]
     if name == "copy":
@@ -1120,9 +1183,9 @@ def seq_method(eng, lv, recv, name, args, s):
     if name == "index":
         v, c = eng.coerce(args[0], et)
         eng.pack(v)
-        present = z3.Contains(recv.t, z3.Unit(v.t))
+        present = z3.Contains(recv.t, z3.Unit(S.enc(v)))
         return eng.implicit(s, "ValueError", z3.Not(present),
-                            lambda s2: [(s2, SV(INT, z3.IndexOf(recv.t, z3.Unit(v.t), 0)))])
+                            lambda s2: [(s2, SV(INT, z3.IndexOf(recv.t, z3.Unit(S.enc(v)), 0)))])
     if name == "pop" and not args:
         need_owned(eng, lv, s, "pop")
         n = z3.Length(recv.t)
@@ -1141,21 +1204,21 @@ def seq_member(eng, seq, v):
     interpreted seq.contains)."""
     if seq.ty.elem.kind == "tup" and "seq_member_tup" in eng.reg.specfuns:
         return eng.reg.specfuns["seq_member_tup"](eng, seq, v)
-    return z3.Contains(seq.t, z3.Unit(v.t))
+    return z3.Contains(seq.t, z3.Unit(S.enc(v)))
 
 
 def seq_remove_first(eng, seq, v):
     """list.remove: delete the first element equal to v (shifting the rest).  For sequences of
     references the term is wrapped in the named function rm_ref (defined by an axiom in the
     'seqref' axiom set) so that the sequence lemmas of that set can be instantiated."""
-    if seq.ty.elem.kind == "ref":
+    if seq.ty.elem.kind in ("ref", "str"):
         f = eng.reg.ufun("rm_ref", z3.SeqSort(z3.IntSort()), z3.IntSort(), z3.SeqSort(z3.IntSort()))
-        return f(seq.t, v.t)
+        return f(seq.t, S.enc(v))
     if seq.ty.elem.kind == "tup" and "seq_remove_first_tup" in eng.reg.specfuns:
         return eng.reg.specfuns["seq_remove_first_tup"](eng, seq, v)
-    i = z3.IndexOf(seq.t, z3.Unit(v.t), 0)
+    i = z3.IndexOf(seq.t, z3.Unit(S.enc(v)), 0)
     n = z3.Length(seq.t)
-    return z3.If(z3.Contains(seq.t, z3.Unit(v.t)),
+    return z3.If(z3.Contains(seq.t, z3.Unit(S.enc(v))),
                  z3.Concat(z3.SubSeq(seq.t, 0, i), z3.SubSeq(seq.t, i + 1, n - i - 1)), seq.t)
 
 
@@ -1191,7 +1254,7 @@ def map_method(eng, lv, recv, name, args, s):
         raise Unsupported("dict.values")
     if name == "clear":
         need_owned(eng, lv, s, "clear")
-        lv.set(eng, s, eng.map_mk(recv.ty, z3.Empty(z3.SeqSort(S.sort_of(kt))), eng.map_vals(recv)))
+        lv.set(eng, s, eng.map_mk(recv.ty, z3.Empty(z3.SeqSort(S.elem_sort(kt))), eng.map_vals(recv)))
         return [(s, mk_none())]
     if name == "copy":
         return [(s, SV(recv.ty, recv.t, const="fresh"))]
